@@ -356,8 +356,34 @@ def _inline_attr_aliases(tree):
                         stores.get(n.targets[0].id) == 1 and \
                         n.targets[0].id not in params:
                     alias[n.targets[0].id] = (n, n.value)
+            # ``x = y`` with x bound once and y a parameter that is never
+            # reassigned (or a local bound once by a plain assignment): the
+            # temporaries a mechanical inlining introduces for arguments
+            plain_once = {}
+            for n in ast.walk(m):
+                if isinstance(n, ast.Assign) and len(n.targets) == 1 and \
+                        isinstance(n.targets[0], ast.Name):
+                    plain_once[n.targets[0].id] = plain_once.get(
+                        n.targets[0].id, 0) + 1
+            for n in ast.walk(m):
+                if isinstance(n, ast.Assign) and len(n.targets) == 1 and \
+                        isinstance(n.targets[0], ast.Name) and isinstance(
+                            n.value, ast.Name) and \
+                        stores.get(n.targets[0].id) == 1 and \
+                        n.targets[0].id not in params and \
+                        n.targets[0].id not in alias:
+                    y = n.value.id
+                    if (y in params and stores.get(y, 0) == 0) or (
+                            y not in params and stores.get(y, 0) == 1 and
+                            plain_once.get(y, 0) == 1 and y not in alias):
+                        alias[n.targets[0].id] = (n, n.value)
             if not alias:
                 continue
+            # chains x = y, z = x resolve to the root
+            for _ in range(4):
+                for k, (an, av) in list(alias.items()):
+                    if isinstance(av, ast.Name) and av.id in alias:
+                        alias[k] = (an, alias[av.id][1])
 
             class T(ast.NodeTransformer):
                 def visit_Assign(self, n):
